@@ -90,9 +90,9 @@ theorem run_spec {cfg : DispCfg} {h : Int} {s : DispState} {l : Ledger} (hi : In
 
 /-! ### CreateUserClaim -/
 
-theorem createClaim_spec {s s' : DispState} {m : MsgClaim} (hc : createClaim s m = some s') :
-    sGet s.claims (claimKey m.user m.typ) = none ∧
-    s' = { s with claims := sSet s.claims (claimKey m.user m.typ) () } := by
+theorem createClaim_spec {s s' : DispState} {m : MsgClaim} (hc : createClaim cfg s m = some s') :
+    sGet s.claims (claimKey (cfg.canon m.user) m.typ) = none ∧
+    s' = { s with claims := sSet s.claims (claimKey (cfg.canon m.user) m.typ) () } := by
   unfold createClaim at hc
   split at hc
   · cases hc
@@ -162,7 +162,7 @@ theorem step_inv {cfg : ChainCfg} (hcfg : cfgOK cfg = true) {c : Chain} {l : Led
       simp only [ledgerStep, step, deliver]
       by_cases hvb : m.validateBasic cfg.disp = true
       · simp only [hvb, Bool.not_true, Bool.false_eq_true, if_false]
-        cases hc : createClaim c.st m with
+        cases hc : createClaim cfg.disp c.st m with
         | none => exact hi
         | some s' =>
           obtain ⟨_, rfl⟩ := createClaim_spec hc
